@@ -233,6 +233,19 @@ func (g *docGen) structValues(t *amType, depth int) []any {
 	}
 	full := g.structDoc(t, depth, nil, false)
 	out := []any{full, g.structDoc(t, depth, nil, true)}
+	// a rich document: every field holds its last (largest) variant
+	rich := map[int]any{}
+	for fi, f := range t.Fields {
+		alts := g.values(f.T, depth-1)
+		if len(alts) > 0 {
+			v := alts[len(alts)-1]
+			if v == nil && len(alts) > 1 {
+				v = alts[len(alts)-2]
+			}
+			rich[fi] = wrapAlt{v}
+		}
+	}
+	out = append(out, g.structDoc(t, depth, rich, false))
 	for fi, f := range t.Fields {
 		alts := g.values(f.T, depth-1)
 		for ai := 1; ai < len(alts) && ai < 4; ai++ {
@@ -280,15 +293,15 @@ func (g *docGen) validDocs(o *amObject, n int) []amDoc {
 		seen[k] = true
 		docs = append(docs, d)
 	}
-	if len(docs) > n {
-		// keep the first two (full, minimal) and a seeded sample of the rest
-		rest := docs[2:]
+	if len(docs) > n && len(docs) > 3 {
+		// keep the first three (full, minimal, rich) and a seeded sample of the rest
+		rest := docs[3:]
 		shuffle(g.rng, rest)
 		// documents holding an explicit null first (rarely reached otherwise), then the seeded sample
 		sort.SliceStable(rest, func(i, j int) bool {
 			return bytes.Contains(rest[i].JSON(), []byte("null")) && !bytes.Contains(rest[j].JSON(), []byte("null"))
 		})
-		docs = append(docs[:2], rest[:n-2]...)
+		docs = append(docs[:3], rest[:max(0, n-3)]...)
 	}
 	return docs
 }
@@ -550,6 +563,7 @@ func (g *docGen) faultDocs(o *amObject, base amDoc, limit int) []amDoc {
 type jsonCmpOpts struct {
 	NullEqualsAbsent bool // an object member holding null ≡ absent member
 	NilEqualsEmpty   bool // null ≡ [] ≡ {} for collections
+	AbsentEqualsEmpty bool // an absent member ≡ a member holding an empty (or null) collection
 }
 
 func parseJSONNum(raw []byte) (any, error) {
@@ -630,6 +644,11 @@ func jsonDiff(a, b any, opts jsonCmpOpts, path string) string {
 					continue
 				}
 			}
+			if opts.AbsentEqualsEmpty {
+				if (!xok && isEmptyColl(yv)) || (!yok && isEmptyColl(xv)) {
+					continue
+				}
+			}
 			if !xok {
 				return fmt.Sprintf("%s.%s: absent vs %s", path, k, short(yv))
 			}
@@ -663,4 +682,88 @@ func short(v any) string {
 		return string(b[:60]) + "…"
 	}
 	return string(b)
+}
+
+// leafVariants derives documents that differ from base in exactly one place (a leaf value at any
+// depth, one map key, one collection emptied), each still generated from the AM's value sets.
+func (g *docGen) leafVariants(o *amObject, base amDoc, limit int) []amDoc {
+	var out []amDoc
+	add := func(label string, path []string, mut func(root any)) {
+		root := deepCopyJSON(base.Val)
+		mut(root)
+		d := amDoc{Obj: o.Name, Val: root, Label: label + "@" + strings.Join(path, ".")}
+		if string(d.JSON()) != string(base.JSON()) {
+			out = append(out, d)
+		}
+	}
+	g.walk(o.T, base.Val, nil, func(s docSite) {
+		site := s
+		rt := g.s.resolve(site.t)
+		if rt == nil {
+			return
+		}
+		cur, _ := json.Marshal(site.val)
+		switch rt.K {
+		case "struct", "union":
+			// handled through their leaves
+		default:
+			for _, alt := range g.values(site.t, 1) {
+				ab, _ := json.Marshal(alt)
+				if string(ab) == string(cur) {
+					continue
+				}
+				a := alt
+				add("leaf:"+rt.K, site.path, func(root any) {
+					mutateAt(root, site.path, func(c any, k string) { setIn(c, k, a) })
+				})
+				break
+			}
+		}
+		if rt.K == "map" {
+			if m, ok := site.val.(map[string]any); ok && len(m) > 0 {
+				add("map-key", site.path, func(root any) {
+					mutateAt(root, site.path, func(c any, k string) {
+						if mm, ok := stepInto(c, k).(map[string]any); ok {
+							for _, key := range sortedKeys(mm) {
+								mm[key+"X"] = mm[key]
+								delete(mm, key)
+								break
+							}
+						}
+					})
+				})
+			}
+		}
+	})
+	if len(out) > limit {
+		// stratified by top-level field, so that every field contributes variants
+		shuffle(g.rng, out)
+		groups := map[string][]amDoc{}
+		var order []string
+		for _, d := range out {
+			top := d.Label
+			if i := strings.Index(top, "@"); i >= 0 {
+				top = strings.SplitN(top[i+1:], ".", 2)[0]
+			}
+			if _, ok := groups[top]; !ok {
+				order = append(order, top)
+			}
+			groups[top] = append(groups[top], d)
+		}
+		var picked []amDoc
+		for round := 0; len(picked) < limit; round++ {
+			progress := false
+			for _, gname := range order {
+				if round < len(groups[gname]) && len(picked) < limit {
+					picked = append(picked, groups[gname][round])
+					progress = true
+				}
+			}
+			if !progress {
+				break
+			}
+		}
+		out = picked
+	}
+	return out
 }
